@@ -6,437 +6,6 @@ import MpVerif.C18.GenTypes
 namespace MpVerif.C18.Frozen
 open MpVerif.C18
 
-def cmpShape_VisitCall : Sx :=
-  .n "CXXMethodDecl" "" [
-   .n "ParmVarDecl" "e : mp::BasicExprVisitor<(anonymous namespace)::ExprComparator, bool, mp::internal::ExprTypes>::CallExpr" [],
-   .n "CompoundStmt" "" [
-    .n "DeclStmt" "" [
-     .n "VarDecl" "call : mp::BasicExprVisitor<(anonymous namespace)::ExprComparator, bool, mp::internal::ExprTypes>::CallExpr" [
-      .n "CallExpr" "" [
-       .n "DeclRefExpr" "Cast" [],
-       .n "MemberExpr" "expr_" [
-        .n "CXXThisExpr" "" []]]]],
-    .n "DeclStmt" "" [
-     .n "VarDecl" "num_args : int" [
-      .n "CXXMemberCallExpr" "" [
-       .n "MemberExpr" "num_args" [
-        .n "DeclRefExpr" "call" []]]]],
-    .n "IfStmt" "" [
-     .n "BinaryOperator" "||" [
-      .n "CXXOperatorCallExpr" "" [
-       .n "DeclRefExpr" "operator!=" [],
-       .n "CXXMemberCallExpr" "" [
-        .n "MemberExpr" "function" [
-         .n "DeclRefExpr" "call" []]],
-       .n "CXXMemberCallExpr" "" [
-        .n "MemberExpr" "function" [
-         .n "DeclRefExpr" "e" []]]],
-      .n "BinaryOperator" "!=" [
-       .n "DeclRefExpr" "num_args" [],
-       .n "CXXMemberCallExpr" "" [
-        .n "MemberExpr" "num_args" [
-         .n "DeclRefExpr" "e" []]]]],
-     .n "ReturnStmt" "" [
-      .n "CXXBoolLiteralExpr" "False" []]],
-    .n "ForStmt" "" [
-     .n "DeclStmt" "" [
-      .n "VarDecl" "i : int" [
-       .n "IntegerLiteral" "0" []]],
-     .n "None" "" [],
-     .n "BinaryOperator" "<" [
-      .n "DeclRefExpr" "i" [],
-      .n "DeclRefExpr" "num_args" []],
-     .n "UnaryOperator" "++" [
-      .n "DeclRefExpr" "i" []],
-     .n "CompoundStmt" "" [
-      .n "DeclStmt" "" [
-       .n "VarDecl" "arg : mp::BasicExprVisitor<(anonymous namespace)::ExprComparator, bool, mp::internal::ExprTypes>::Expr" [
-        .n "CXXMemberCallExpr" "" [
-         .n "MemberExpr" "arg" [
-          .n "DeclRefExpr" "call" []],
-         .n "DeclRefExpr" "i" []]],
-       .n "VarDecl" "other_arg : mp::BasicExprVisitor<(anonymous namespace)::ExprComparator, bool, mp::internal::ExprTypes>::Expr" [
-        .n "CXXMemberCallExpr" "" [
-         .n "MemberExpr" "arg" [
-          .n "DeclRefExpr" "e" []],
-         .n "DeclRefExpr" "i" []]]],
-      .n "IfStmt" "" [
-       .n "BinaryOperator" "!=" [
-        .n "CXXMemberCallExpr" "" [
-         .n "MemberExpr" "kind" [
-          .n "DeclRefExpr" "arg" []]],
-        .n "CXXMemberCallExpr" "" [
-         .n "MemberExpr" "kind" [
-          .n "DeclRefExpr" "other_arg" []]]],
-       .n "ReturnStmt" "" [
-        .n "CXXBoolLiteralExpr" "False" []]],
-      .n "IfStmt" "" [
-       .n "DeclStmt" "" [
-        .n "VarDecl" "num_arg : mp::BasicExprVisitor<(anonymous namespace)::ExprComparator, bool, mp::internal::ExprTypes>::NumericExpr" [
-         .n "CallExpr" "" [
-          .n "DeclRefExpr" "Cast" [],
-          .n "DeclRefExpr" "arg" []]]],
-       .n "CXXMemberCallExpr" "" [
-        .n "MemberExpr" "operator void (mp::internal::ExprBase::*)() const" [
-         .n "DeclRefExpr" "num_arg" []]],
-       .n "CompoundStmt" "" [
-        .n "IfStmt" "" [
-         .n "UnaryOperator" "!" [
-          .n "CallExpr" "" [
-           .n "DeclRefExpr" "Equal" [],
-           .n "DeclRefExpr" "num_arg" [],
-           .n "CallExpr" "" [
-            .n "DeclRefExpr" "Cast" [],
-            .n "DeclRefExpr" "other_arg" []]]],
-         .n "ReturnStmt" "" [
-          .n "CXXBoolLiteralExpr" "False" []]]],
-       .n "IfStmt" "" [
-        .n "DeclStmt" "" [
-         .n "VarDecl" "str_arg : mp::BasicExprVisitor<(anonymous namespace)::ExprComparator, bool, mp::internal::ExprTypes>::StringLiteral" [
-          .n "CallExpr" "" [
-           .n "DeclRefExpr" "Cast" [],
-           .n "DeclRefExpr" "arg" []]]],
-        .n "CXXMemberCallExpr" "" [
-         .n "MemberExpr" "operator void (mp::internal::ExprBase::*)() const" [
-          .n "DeclRefExpr" "str_arg" []]],
-        .n "CompoundStmt" "" [
-         .n "IfStmt" "" [
-          .n "BinaryOperator" "!=" [
-           .n "CallExpr" "" [
-            .n "DeclRefExpr" "strcmp" [],
-            .n "CXXMemberCallExpr" "" [
-             .n "MemberExpr" "value" [
-              .n "DeclRefExpr" "str_arg" []]],
-            .n "CXXMemberCallExpr" "" [
-             .n "MemberExpr" "value" [
-              .n "CallExpr" "" [
-               .n "DeclRefExpr" "Cast" [],
-               .n "DeclRefExpr" "other_arg" []]]]],
-           .n "IntegerLiteral" "0" []],
-          .n "ReturnStmt" "" [
-           .n "CXXBoolLiteralExpr" "False" []]]],
-        .n "IfStmt" "" [
-         .n "UnaryOperator" "!" [
-          .n "CallExpr" "" [
-           .n "DeclRefExpr" "Equal" [],
-           .n "DeclRefExpr" "arg" [],
-           .n "DeclRefExpr" "other_arg" []]],
-         .n "CompoundStmt" "" [
-          .n "ReturnStmt" "" [
-           .n "CXXBoolLiteralExpr" "False" []]]]]]]],
-    .n "ReturnStmt" "" [
-     .n "CXXBoolLiteralExpr" "True" []]]]
-
-def cmpShape_VisitPLTerm : Sx :=
-  .n "CXXMethodDecl" "" [
-   .n "ParmVarDecl" "e : mp::BasicExprVisitor<(anonymous namespace)::ExprComparator, bool, mp::internal::ExprTypes>::PLTerm" [],
-   .n "CompoundStmt" "" [
-    .n "DeclStmt" "" [
-     .n "VarDecl" "pl : mp::BasicExprVisitor<(anonymous namespace)::ExprComparator, bool, mp::internal::ExprTypes>::PLTerm" [
-      .n "CallExpr" "" [
-       .n "DeclRefExpr" "Cast" [],
-       .n "MemberExpr" "expr_" [
-        .n "CXXThisExpr" "" []]]]],
-    .n "DeclStmt" "" [
-     .n "VarDecl" "num_breakpoints : int" [
-      .n "CXXMemberCallExpr" "" [
-       .n "MemberExpr" "num_breakpoints" [
-        .n "DeclRefExpr" "pl" []]]]],
-    .n "IfStmt" "" [
-     .n "BinaryOperator" "!=" [
-      .n "DeclRefExpr" "num_breakpoints" [],
-      .n "CXXMemberCallExpr" "" [
-       .n "MemberExpr" "num_breakpoints" [
-        .n "DeclRefExpr" "e" []]]],
-     .n "ReturnStmt" "" [
-      .n "CXXBoolLiteralExpr" "False" []]],
-    .n "ForStmt" "" [
-     .n "DeclStmt" "" [
-      .n "VarDecl" "i : int" [
-       .n "IntegerLiteral" "0" []]],
-     .n "None" "" [],
-     .n "BinaryOperator" "<" [
-      .n "DeclRefExpr" "i" [],
-      .n "DeclRefExpr" "num_breakpoints" []],
-     .n "UnaryOperator" "++" [
-      .n "DeclRefExpr" "i" []],
-     .n "CompoundStmt" "" [
-      .n "IfStmt" "" [
-       .n "BinaryOperator" "||" [
-        .n "BinaryOperator" "!=" [
-         .n "CXXMemberCallExpr" "" [
-          .n "MemberExpr" "slope" [
-           .n "DeclRefExpr" "pl" []],
-          .n "DeclRefExpr" "i" []],
-         .n "CXXMemberCallExpr" "" [
-          .n "MemberExpr" "slope" [
-           .n "DeclRefExpr" "e" []],
-          .n "DeclRefExpr" "i" []]],
-        .n "BinaryOperator" "!=" [
-         .n "CXXMemberCallExpr" "" [
-          .n "MemberExpr" "breakpoint" [
-           .n "DeclRefExpr" "pl" []],
-          .n "DeclRefExpr" "i" []],
-         .n "CXXMemberCallExpr" "" [
-          .n "MemberExpr" "breakpoint" [
-           .n "DeclRefExpr" "e" []],
-          .n "DeclRefExpr" "i" []]]],
-       .n "ReturnStmt" "" [
-        .n "CXXBoolLiteralExpr" "False" []]]]],
-    .n "ReturnStmt" "" [
-     .n "BinaryOperator" "&&" [
-      .n "BinaryOperator" "==" [
-       .n "CXXMemberCallExpr" "" [
-        .n "MemberExpr" "slope" [
-         .n "DeclRefExpr" "pl" []],
-        .n "DeclRefExpr" "num_breakpoints" []],
-       .n "CXXMemberCallExpr" "" [
-        .n "MemberExpr" "slope" [
-         .n "DeclRefExpr" "e" []],
-        .n "DeclRefExpr" "num_breakpoints" []]],
-      .n "CallExpr" "" [
-       .n "DeclRefExpr" "Equal" [],
-       .n "CXXMemberCallExpr" "" [
-        .n "MemberExpr" "arg" [
-         .n "DeclRefExpr" "pl" []]],
-       .n "CXXMemberCallExpr" "" [
-        .n "MemberExpr" "arg" [
-         .n "DeclRefExpr" "e" []]]]]]]]
-
-def cmpShape_VisitVarArg : Sx :=
-  .n "CXXMethodDecl" "" [
-   .n "ParmVarDecl" "e" [],
-   .n "CompoundStmt" "" [
-    .n "DeclStmt" "" [
-     .n "VarDecl" "vararg" [
-      .n "CallExpr" "" [
-       .n "DeclRefExpr" "Cast" [],
-       .n "MemberExpr" "expr_" [
-        .n "CXXThisExpr" "" []]]]],
-    .n "DeclStmt" "" [
-     .n "VarDecl" "i" [
-      .n "CXXMemberCallExpr" "" [
-       .n "MemberExpr" "begin" [
-        .n "DeclRefExpr" "vararg" []]]],
-     .n "VarDecl" "iend" [
-      .n "CXXMemberCallExpr" "" [
-       .n "MemberExpr" "end" [
-        .n "DeclRefExpr" "vararg" []]]]],
-    .n "DeclStmt" "" [
-     .n "VarDecl" "j" [
-      .n "CXXMemberCallExpr" "" [
-       .n "MemberExpr" "begin" [
-        .n "DeclRefExpr" "e" []]]],
-     .n "VarDecl" "jend" [
-      .n "CXXMemberCallExpr" "" [
-       .n "MemberExpr" "end" [
-        .n "DeclRefExpr" "e" []]]]],
-    .n "ForStmt" "" [
-     .n "None" "" [],
-     .n "None" "" [],
-     .n "CXXOperatorCallExpr" "" [
-      .n "DeclRefExpr" "operator!=" [],
-      .n "DeclRefExpr" "i" [],
-      .n "DeclRefExpr" "iend" []],
-     .n "BinaryOperator" "," [
-      .n "CXXOperatorCallExpr" "" [
-       .n "DeclRefExpr" "operator++" [],
-       .n "DeclRefExpr" "i" []],
-      .n "CXXOperatorCallExpr" "" [
-       .n "DeclRefExpr" "operator++" [],
-       .n "DeclRefExpr" "j" []]],
-     .n "CompoundStmt" "" [
-      .n "IfStmt" "" [
-       .n "BinaryOperator" "||" [
-        .n "CXXOperatorCallExpr" "" [
-         .n "DeclRefExpr" "operator==" [],
-         .n "DeclRefExpr" "j" [],
-         .n "DeclRefExpr" "jend" []],
-        .n "UnaryOperator" "!" [
-         .n "CallExpr" "" [
-          .n "DeclRefExpr" "Equal" [],
-          .n "CXXOperatorCallExpr" "" [
-           .n "DeclRefExpr" "operator*" [],
-           .n "DeclRefExpr" "i" []],
-          .n "CXXOperatorCallExpr" "" [
-           .n "DeclRefExpr" "operator*" [],
-           .n "DeclRefExpr" "j" []]]]],
-       .n "ReturnStmt" "" [
-        .n "CXXBoolLiteralExpr" "False" []]]]],
-    .n "ReturnStmt" "" [
-     .n "CXXOperatorCallExpr" "" [
-      .n "DeclRefExpr" "operator==" [],
-      .n "DeclRefExpr" "j" [],
-      .n "DeclRefExpr" "jend" []]]]]
-
-def hashShape_VisitCall : Sx :=
-  .n "CXXMethodDecl" "" [
-   .n "ParmVarDecl" "e : mp::BasicExprVisitor<(anonymous namespace)::ExprHasher, unsigned long, mp::internal::ExprTypes>::CallExpr" [],
-   .n "CompoundStmt" "" [
-    .n "DeclStmt" "" [
-     .n "VarDecl" "hash : std::size_t" [
-      .n "CallExpr" "" [
-       .n "DeclRefExpr" "Hash" [],
-       .n "DeclRefExpr" "e" [],
-       .n "CXXMemberCallExpr" "" [
-        .n "MemberExpr" "name" [
-         .n "CXXMemberCallExpr" "" [
-          .n "MemberExpr" "function" [
-           .n "DeclRefExpr" "e" []]]]]]]],
-    .n "ForStmt" "" [
-     .n "DeclStmt" "" [
-      .n "VarDecl" "i : int" [
-       .n "IntegerLiteral" "0" []],
-      .n "VarDecl" "n : int" [
-       .n "CXXMemberCallExpr" "" [
-        .n "MemberExpr" "num_args" [
-         .n "DeclRefExpr" "e" []]]]],
-     .n "None" "" [],
-     .n "BinaryOperator" "<" [
-      .n "DeclRefExpr" "i" [],
-      .n "DeclRefExpr" "n" []],
-     .n "UnaryOperator" "++" [
-      .n "DeclRefExpr" "i" []],
-     .n "BinaryOperator" "=" [
-      .n "DeclRefExpr" "hash" [],
-      .n "CallExpr" "" [
-       .n "DeclRefExpr" "HashCombine" [],
-       .n "DeclRefExpr" "hash" [],
-       .n "CXXMemberCallExpr" "" [
-        .n "MemberExpr" "arg" [
-         .n "DeclRefExpr" "e" []],
-        .n "DeclRefExpr" "i" []]]]],
-    .n "ReturnStmt" "" [
-     .n "DeclRefExpr" "hash" []]]]
-
-def hashShape_VisitPLTerm : Sx :=
-  .n "CXXMethodDecl" "" [
-   .n "ParmVarDecl" "e : mp::BasicExprVisitor<(anonymous namespace)::ExprHasher, unsigned long, mp::internal::ExprTypes>::PLTerm" [],
-   .n "CompoundStmt" "" [
-    .n "DeclStmt" "" [
-     .n "VarDecl" "hash : std::size_t" [
-      .n "CallExpr" "" [
-       .n "DeclRefExpr" "Hash" [],
-       .n "DeclRefExpr" "e" []]]],
-    .n "DeclStmt" "" [
-     .n "VarDecl" "num_breakpoints : int" [
-      .n "CXXMemberCallExpr" "" [
-       .n "MemberExpr" "num_breakpoints" [
-        .n "DeclRefExpr" "e" []]]]],
-    .n "ForStmt" "" [
-     .n "DeclStmt" "" [
-      .n "VarDecl" "i : int" [
-       .n "IntegerLiteral" "0" []]],
-     .n "None" "" [],
-     .n "BinaryOperator" "<" [
-      .n "DeclRefExpr" "i" [],
-      .n "DeclRefExpr" "num_breakpoints" []],
-     .n "UnaryOperator" "++" [
-      .n "DeclRefExpr" "i" []],
-     .n "CompoundStmt" "" [
-      .n "BinaryOperator" "=" [
-       .n "DeclRefExpr" "hash" [],
-       .n "CallExpr" "" [
-        .n "DeclRefExpr" "HashCombine" [],
-        .n "DeclRefExpr" "hash" [],
-        .n "CXXMemberCallExpr" "" [
-         .n "MemberExpr" "slope" [
-          .n "DeclRefExpr" "e" []],
-         .n "DeclRefExpr" "i" []]]],
-      .n "BinaryOperator" "=" [
-       .n "DeclRefExpr" "hash" [],
-       .n "CallExpr" "" [
-        .n "DeclRefExpr" "HashCombine" [],
-        .n "DeclRefExpr" "hash" [],
-        .n "CXXMemberCallExpr" "" [
-         .n "MemberExpr" "breakpoint" [
-          .n "DeclRefExpr" "e" []],
-         .n "DeclRefExpr" "i" []]]]]],
-    .n "BinaryOperator" "=" [
-     .n "DeclRefExpr" "hash" [],
-     .n "CallExpr" "" [
-      .n "DeclRefExpr" "HashCombine" [],
-      .n "DeclRefExpr" "hash" [],
-      .n "CXXMemberCallExpr" "" [
-       .n "MemberExpr" "slope" [
-        .n "DeclRefExpr" "e" []],
-       .n "DeclRefExpr" "num_breakpoints" []]]],
-    .n "ReturnStmt" "" [
-     .n "CallExpr" "" [
-      .n "DeclRefExpr" "HashCombine" [],
-      .n "DeclRefExpr" "hash" [],
-      .n "CXXMemberCallExpr" "" [
-       .n "MemberExpr" "arg" [
-        .n "DeclRefExpr" "e" []]]]]]]
-
-def hashShape_VisitStringLiteral : Sx :=
-  .n "CXXMethodDecl" "" [
-   .n "ParmVarDecl" "s : mp::BasicExprVisitor<(anonymous namespace)::ExprHasher, unsigned long, mp::internal::ExprTypes>::StringLiteral" [],
-   .n "CompoundStmt" "" [
-    .n "DeclStmt" "" [
-     .n "VarDecl" "hash : std::size_t" [
-      .n "CallExpr" "" [
-       .n "DeclRefExpr" "Hash" [],
-       .n "DeclRefExpr" "s" []]]],
-    .n "ForStmt" "" [
-     .n "DeclStmt" "" [
-      .n "VarDecl" "value : const char *" [
-       .n "CXXMemberCallExpr" "" [
-        .n "MemberExpr" "value" [
-         .n "DeclRefExpr" "s" []]]]],
-     .n "None" "" [],
-     .n "UnaryOperator" "*" [
-      .n "DeclRefExpr" "value" []],
-     .n "UnaryOperator" "++" [
-      .n "DeclRefExpr" "value" []],
-     .n "BinaryOperator" "=" [
-      .n "DeclRefExpr" "hash" [],
-      .n "CallExpr" "" [
-       .n "DeclRefExpr" "HashCombine" [],
-       .n "DeclRefExpr" "hash" [],
-       .n "UnaryOperator" "*" [
-        .n "DeclRefExpr" "value" []]]]],
-    .n "ReturnStmt" "" [
-     .n "DeclRefExpr" "hash" []]]]
-
-def hashShape_VisitVarArg : Sx :=
-  .n "CXXMethodDecl" "" [
-   .n "ParmVarDecl" "e" [],
-   .n "CompoundStmt" "" [
-    .n "DeclStmt" "" [
-     .n "VarDecl" "hash : std::size_t" [
-      .n "CallExpr" "" [
-       .n "DeclRefExpr" "Hash" [],
-       .n "DeclRefExpr" "e" []]]],
-    .n "ForStmt" "" [
-     .n "DeclStmt" "" [
-      .n "VarDecl" "i" [
-       .n "CXXMemberCallExpr" "" [
-        .n "MemberExpr" "begin" [
-         .n "DeclRefExpr" "e" []]]],
-      .n "VarDecl" "end" [
-       .n "CXXMemberCallExpr" "" [
-        .n "MemberExpr" "end" [
-         .n "DeclRefExpr" "e" []]]]],
-     .n "None" "" [],
-     .n "CXXOperatorCallExpr" "" [
-      .n "DeclRefExpr" "operator!=" [],
-      .n "DeclRefExpr" "i" [],
-      .n "DeclRefExpr" "end" []],
-     .n "CXXOperatorCallExpr" "" [
-      .n "DeclRefExpr" "operator++" [],
-      .n "DeclRefExpr" "i" []],
-     .n "BinaryOperator" "=" [
-      .n "DeclRefExpr" "hash" [],
-      .n "CallExpr" "" [
-       .n "DeclRefExpr" "HashCombine" [],
-       .n "DeclRefExpr" "hash" [],
-       .n "CXXOperatorCallExpr" "" [
-        .n "DeclRefExpr" "operator*" [],
-        .n "DeclRefExpr" "i" []]]]],
-    .n "ReturnStmt" "" [
-     .n "DeclRefExpr" "hash" []]]]
-
 def helperShape_CallExpr_arg : Sx :=
   .n "CXXMethodDecl" "" [
    .n "ParmVarDecl" "index : int" [],
